@@ -2,15 +2,18 @@
 // (each call in a forked child so that a hang, an abort or exit(1) is a *result*, not the end of the run)
 // on generated symmetric positive-definite systems and prints system + returned vector as bit patterns.
 //
-// usage: nnls_harness <nsmall> <nlarge> <cases.out> <impl.out> <stats.out> <kkt_tol> <hang_seconds>
+// usage: nnls_harness <nsmall> <nlarge> <cases.out> <impl.out> <stats.out> <kkt_tol> <hang_seconds> [<nmedium>]
 //        nnls_harness replay <caseline-file> <impl.out> <hang_seconds>
 //
 // cases.out lines
 //   SYS id kind n ls rows nnz (i j bits)*nnz  v bits*rows      ls=0: A=M (n x n), b=v;  ls=1: A=M'M, b=M'v
+//       kinds 0-4,7 small (n <= 12), 5 large sparse banded, 6 least-squares form,
+//       8-10 dense n = 30..220 (<nmedium> systems; multi-row factor updates, see gen_dense_gram / gen_staged / gen_overshoot)
 //   X id solver tolbits                                         solver 0 LH(normaleq) 1 block 2 updown 3 block3 4 LH(least squares)
 // impl.out lines (one per cases line)
 //   sys
-//   ok bits*n | free=<n> constr=<n> iters=<n> walk=<n> boundary=<n> full=<n> warn=<0/1> retries=<n>
+//   ok bits*n | iters=<n> cap=<0/1> walk=<n> boundary=<n> full=<n> stuck=<n> constr=<n>
+//               rowadd=<calls> madd=<calls adding >= 2 rows> rowdel=<calls> mdel=<calls deleting >= 2 rows> maxrows=<n> refac=<n> retries=<n>
 //   hang | abort <status>
 #include <cholmod.h>
 #include <sys/wait.h>
@@ -164,6 +167,133 @@ Sys gen_large(Rng& r, int nlo, int nhi) {
   return s;
 }
 
+// ---- medium/large DENSE systems (n >= 30): the classes on which modify_factor takes its row-by-row path
+// (cholmod_rowadd / cholmod_rowdel on a full-size factor) for SEVERAL rows in one call.  The heuristic
+// fl / (9 * threads * (nH1+nH2) * modfl) > 1 needs a (nearly) dense factor with n > ~14 * (rows changed), an earlier
+// update request that built the full-size factor, and then a change of >= 2 rows: quick small systems never get there.
+// All entries are small integers (times a power of two for the scaled variant): A, b exact in double.
+// Checked through the exact KKT test only (no enumeration).
+
+void shuffle(Rng& r, std::vector<int>& p) { for (size_t i = p.size(); i > 1; i--) std::swap(p[i - 1], p[r.below(i)]); }
+
+// kind 8: dense integer Gram matrix A = B'B + I (B (n+extra) x n, entries -2..2 at density d), right-hand side with a
+// chosen fraction of positive entries (the sign of b_i decides whether coefficient i is released in the first iteration)
+Sys gen_dense_gram(Rng& r, int nlo, int nhi) {
+  int n = r.range(nlo, nhi), m = n + r.range(0, 8);
+  double dens = r.coin(1, 3) ? 0.5 : 1.0;
+  std::vector<double> B((size_t)m * n), A((size_t)n * n, 0.0), b(n);
+  for (auto& e : B) e = (r.unit() < dens) ? (double)r.range(-2, 2) : 0.0;
+  for (int i = 0; i < n; i++) for (int j = i; j < n; j++) {
+    double s = (i == j) ? 1.0 : 0.0;
+    for (int k = 0; k < m; k++) s += B[(size_t)k * n + i] * B[(size_t)k * n + j];
+    A[(size_t)i * n + j] = A[(size_t)j * n + i] = s;
+  }
+  int style = r.range(0, 3);            // 0: symmetric signs, 1: mostly positive, 2: nearly all positive, 3: b = A x0 - g0 (planted solution)
+  if (style == 3) {
+    std::vector<double> x0(n), g0(n);
+    int fnum = r.range(0, 2) == 0 ? 2 : (r.coin() ? 9 : 29), fden = fnum + 1;     // planted support: 2/3, 9/10 or 29/30 of the coefficients
+    for (int i = 0; i < n; i++) { bool fr = r.coin(fnum, fden); x0[i] = fr ? (double)r.range(1, 6) : 0.0; g0[i] = fr ? 0.0 : (double)r.range(1, 40); }
+    for (int i = 0; i < n; i++) { double s = -g0[i]; for (int j = 0; j < n; j++) s += A[(size_t)i * n + j] * x0[j]; b[i] = s; }
+  } else {
+    int num = style == 0 ? 1 : (style == 1 ? 4 : 15), den = style == 0 ? 2 : (style == 1 ? 5 : 16);
+    for (auto& e : b) { double a = (double)r.range(1, 24); e = r.coin(num, den) ? a : -a; }
+  }
+  return from_dense(8, n, A, b);
+}
+
+// kind 9: staged release.  A = D - N + (sign-flipped couplings): symmetric, integer, strictly diagonally dominant with positive
+// diagonal (a_ii = 1 + sum_j |a_ij|), i.e. a weighted graph Laplacian plus identity = B'B + I for the signed incidence
+// matrix B.  Variables: a large dense core C (b > 0: released in the first iteration) and a chain of small groups
+// Q_1 .. Q_s (b = 0 or slightly negative), Q_j coupled to Q_{j-1} (Q_0 = C) by negative entries: x_{Q_{j-1}} > 0 makes the
+// gradient on Q_j negative, so Q_j (k_j >= 2 coefficients at once) is released in iteration j, after the full-size factor
+// exists.  Positive couplings (probability pflip) push already free coefficients negative instead, which gives multi-row
+// deletions.  The index sets are scattered by a random permutation (or kept contiguous / reversed).
+Sys gen_staged(Rng& r, int nlo, int nhi, bool updown_style) {
+  int n = r.range(nlo, nhi);
+  int stages = r.range(1, 4);
+  std::vector<int> k(stages + 1);
+  int kmax = r.coin(1, 4) ? 9 : 4, used = 0;
+  for (int j = 1; j <= stages; j++) { k[j] = r.coin(1, 6) ? 1 : r.range(2, kmax); used += k[j]; }
+  if (updown_style) {
+    // nnls_normal_block_updown switches whole blocks only while the number of infeasible coefficients stays above its
+    // murty_steps counter (5, +1 per block step): a first group of >= 8 released together (still few enough for the
+    // row-by-row path, n > ~14 k_1), then smaller ones
+    stages = r.range(2, 4); k.assign(stages + 1, 0); used = 0;
+    k[1] = r.range(8, std::max(8, n / 14));
+    for (int j = 2; j <= stages; j++) k[j] = r.range(2, std::max(2, std::min(k[j - 1] + 1, 12 - 3 * j)));
+    for (int j = 1; j <= stages; j++) used += k[j];
+  }
+  if (used > n / 3) { stages = 1; k.resize(2); k[1] = 2; used = 2; }
+  k[0] = n - used;
+  std::vector<int> perm(n); for (int i = 0; i < n; i++) perm[i] = i;
+  int pstyle = r.range(0, 3);
+  if (pstyle == 0) shuffle(r, perm); else if (pstyle == 1) for (int i = 0; i < n; i++) perm[i] = n - 1 - i;
+  std::vector<int> start(stages + 2, 0); for (int j = 0; j <= stages; j++) start[j + 1] = start[j] + k[j];
+  std::vector<double> A((size_t)n * n, 0.0), b(n, 0.0);
+  auto add = [&](int u, int v, double w) { int a = perm[u], c = perm[v]; A[(size_t)a * n + c] += w; A[(size_t)c * n + a] += w; };
+  double dens = r.coin(1, 4) ? 0.6 : 1.0;
+  int pflip = r.coin(1, 3) ? r.range(1, 3) : 0;      // out of 10
+  for (int u = 0; u < k[0]; u++) for (int v = u + 1; v < k[0]; v++) if (r.unit() < dens) add(u, v, -(double)r.range(1, 3));
+  for (int j = 1; j <= stages; j++) {
+    for (int u = start[j]; u < start[j + 1]; u++) {
+      int deg = r.range(1, 3);
+      for (int t = 0; t < deg; t++) {
+        int v = start[j - 1] + (int)r.below(k[j - 1]);
+        if (A[(size_t)perm[u] * n + perm[v]] != 0) continue;
+        double w = (double)r.range(1, 3);
+        add(u, v, ((int)r.below(10) < pflip) ? w : -w);
+      }
+      for (int v = u + 1; v < start[j + 1]; v++) if (r.coin(1, 3)) add(u, v, -(double)r.range(1, 2));
+    }
+  }
+  for (int i = 0; i < n; i++) { double s = 1.0; for (int j = 0; j < n; j++) if (j != i) s += std::fabs(A[(size_t)i * n + j]); A[(size_t)i * n + i] = s; }
+  int bstyle = r.range(0, 2);
+  for (int u = 0; u < n; u++) {
+    double e;
+    if (u < k[0]) e = (bstyle == 2 && r.coin(1, 8)) ? -(double)r.range(1, 8) : (double)r.range(1, 16) * (double)k[0];
+    else e = bstyle == 0 ? 0.0 : (r.coin(1, 2) ? 0.0 : -(double)r.range(1, 4) / 16.0);
+    b[perm[u]] = e;
+  }
+  if (r.coin(1, 5)) {   // badly scaled copy: D A D, D b with D = diag(2^e), |e| <= 8 (exact)
+    for (int i = 0; i < n; i++) { int e = r.range(-8, 8); b[i] = std::ldexp(b[i], e); for (int j = 0; j < n; j++) { A[(size_t)i * n + j] = std::ldexp(A[(size_t)i * n + j], e); A[(size_t)j * n + i] = std::ldexp(A[(size_t)j * n + i], e); } }
+  }
+  return from_dense(9, n, A, b);
+}
+
+// kind 10: overshoot.  Same matrix family as kind 9 (integer, strictly diagonally dominant), planted unconstrained solution
+// x0 = A^-1 b with a large positive core and a small group N (k >= 2) of slightly NEGATIVE components, b = A x0 > 0 (exact):
+// every coefficient is released in the first iteration (so the factor is full-size at once), the solve returns x0, and the
+// whole group N has to be constrained again in one call (multi-row deletion; "descent at boundary" in BLOCK3).  An optional
+// tail group Q (b slightly negative, negatively coupled to the core) is released one iteration later.
+Sys gen_overshoot(Rng& r, int nlo, int nhi) {
+  int n = r.range(nlo, nhi);
+  int k = r.coin(1, 5) ? r.range(2, std::max(2, n / 6)) : r.range(2, std::max(2, n / 16));
+  int q = r.coin(1, 2) ? r.range(1, 4) : 0;
+  int core = n - k - q;
+  std::vector<int> perm(n); for (int i = 0; i < n; i++) perm[i] = i;
+  int pstyle = r.range(0, 2);
+  if (pstyle == 0) shuffle(r, perm); else if (pstyle == 1) for (int i = 0; i < n; i++) perm[i] = n - 1 - i;
+  std::vector<double> A((size_t)n * n, 0.0), b(n, 0.0), x0(n, 0.0);
+  auto add = [&](int u, int v, double w) { int a = perm[u], c = perm[v]; A[(size_t)a * n + c] += w; A[(size_t)c * n + a] += w; };
+  double dens = r.coin(1, 4) ? 0.6 : 1.0, densN = r.coin(1, 2) ? 1.0 : 0.4;
+  for (int u = 0; u < core; u++) for (int v = u + 1; v < core; v++) if (r.unit() < dens) add(u, v, -(double)r.range(1, 3));
+  for (int u = core; u < core + k; u++) {                      // N: positive couplings to the core, mixed inside
+    bool any = false;
+    for (int v = 0; v < core; v++) if (r.unit() < densN) { add(u, v, (double)r.range(1, 3)); any = true; }
+    if (!any) add(u, (int)r.below(core), 2.0);
+    for (int v = u + 1; v < core + k; v++) if (r.coin(1, 3)) add(u, v, r.coin() ? 1.0 : -1.0);
+  }
+  for (int u = core + k; u < n; u++) { int deg = r.range(1, 3); for (int t = 0; t < deg; t++) { int v = (int)r.below(core); if (A[(size_t)perm[u] * n + perm[v]] == 0) add(u, v, -(double)r.range(1, 3)); } }
+  for (int i = 0; i < n; i++) { double s = 1.0; for (int j = 0; j < n; j++) if (j != i) s += std::fabs(A[(size_t)i * n + j]); A[(size_t)i * n + i] = s; }
+  double c0 = (double)(r.range(4, 8) * (1 + 3 * k));
+  bool vary = r.coin(1, 3);
+  for (int u = 0; u < core; u++) x0[perm[u]] = c0 + (vary ? (double)r.range(0, 2) : 0.0);
+  for (int u = core; u < core + k; u++) x0[perm[u]] = -(double)r.range(1, 7) / 8.0;
+  for (int i = 0; i < n; i++) { double s = 0; for (int j = 0; j < n; j++) s += A[(size_t)i * n + j] * x0[j]; b[i] = s; }
+  for (int u = core + k; u < n; u++) b[perm[u]] = -(double)r.range(1, 4) / 16.0;      // tail: not part of the planted solution
+  return from_dense(10, n, A, b);
+}
+
 cholmod_sparse* to_sparse(const Sys& s, cholmod_common* c) {
   cholmod_triplet* t = cholmod_l_allocate_triplet(s.rows, s.n, s.tx.size() + 1, 0, CHOLMOD_REAL, c);
   for (size_t k = 0; k < s.tx.size(); k++) { ((long*)t->i)[k] = s.ti[k]; ((long*)t->j)[k] = s.tj[k]; ((double*)t->x)[k] = s.tx[k]; }
@@ -171,6 +301,16 @@ cholmod_sparse* to_sparse(const Sys& s, cholmod_common* c) {
   cholmod_sparse* A = cholmod_l_triplet_to_sparse(t, t->nnz, c);
   cholmod_l_free_triplet(&t, c);
   return A;
+}
+
+// "\tAdd <k> rows:" / "\tDelete <k> rows:" are printed by modify_factor_p only on the row-by-row path (update requested and
+// the factor already full-size): count the calls and those that changed >= 2 rows at once
+void count_rowmods(const std::string& verb, const char* needle, int& calls, int& multi, int& maxrows) {
+  size_t p = 0, l = strlen(needle);
+  while ((p = verb.find(needle, p)) != std::string::npos) {
+    p += l; long k = strtol(verb.c_str() + p, nullptr, 10);
+    calls++; if (k >= 2) multi++; if (k > maxrows) maxrows = (int)k;
+  }
 }
 
 int count_sub(const std::string& hay, const char* needle) { int n = 0; size_t p = 0, l = strlen(needle); while ((p = hay.find(needle, p)) != std::string::npos) { n++; p += l; } return n; }
@@ -194,6 +334,7 @@ std::string solve_child(const Sys& s, int solver, double tol) {
   }
   fflush(stdout); dup2(saved, 1); close(saved);
   std::string verb; { off_t len = lseek(vfd, 0, SEEK_END); lseek(vfd, 0, SEEK_SET); verb.resize(len > 0 ? len : 0); if (len > 0) { ssize_t rd = read(vfd, &verb[0], len); (void)rd; } close(vfd); }
+  if (getenv("PSV_NNLS_DUMP")) fprintf(stderr, "--- solver %d n=%d\n%s", solver, s.n, verb.c_str());   // debugging aid (replay mode)
   std::ostringstream o;
   if (!x) return "null";
   o << "ok";
@@ -205,6 +346,10 @@ std::string solve_child(const Sys& s, int solver, double tol) {
   else cap = count_sub(verb, "VARNING") > 0;
   o << " | iters=" << iters << " cap=" << cap << " walk=" << count_sub(verb, "alpha[") << " boundary=" << count_sub(verb, "descent at boundary")
     << " full=" << count_sub(verb, "Solution entirely feasible") << " stuck=" << count_sub(verb, "Stuck!") << " constr=" << count_sub(verb, "Constraining coefficient");
+  int addc = 0, addm = 0, delc = 0, delm = 0, maxr = 0;
+  count_rowmods(verb, "\tAdd ", addc, addm, maxr); count_rowmods(verb, "\tDelete ", delc, delm, maxr);
+  o << " rowadd=" << addc << " madd=" << addm << " rowdel=" << delc << " mdel=" << delm << " maxrows=" << maxr
+    << " refac=" << count_sub(verb, "Recomputing factorization from scratch");
   return o.str();
 }
 
@@ -251,6 +396,7 @@ void emit(std::ofstream& fc, std::ofstream& fi, long id, const Sys& s, double kk
     if (s.ls && solver != 4) continue;
     if (!s.ls && solver == 4) continue;
     if (s.kind == 5 && solver == 0 && s.n > 150) continue;
+    if (s.kind >= 8 && s.kind <= 10 && solver == 0 && s.n > 60) continue;   // Lawson-Hanson: one coefficient per QR solve, no factor updates
     if (s.kind == 7 && solver == 0) continue;   // Lawson-Hanson frees one coefficient per QR solve: too slow for the quick tier
     double tol = (solver == 3) ? (double)s.n * DBL_EPS * 1e5 : ((solver == 1 || solver == 2) ? kkt_tol : ((id % 2) ? 1e-9 : 0.0));
     int retries = 0;
@@ -295,6 +441,22 @@ int main(int argc, char** argv) {
   }
   for (long k = 0; k < nlarge; k++) {
     Sys s = (k % 3 == 2) ? gen_large(r, 150, 400) : gen_large(r, 20, 149);
+    emit(fc, fi, id++, s, kkt_tol, hang_s, stats);
+  }
+  // medium dense systems: multi-row factor updates (see gen_dense_gram / gen_staged)
+  long nmed = argc >= 9 ? atol(argv[8]) : 0;
+  for (long k = 0; k < nmed; k++) {
+    Sys s;
+    switch (k % 8) {
+      case 0: s = gen_staged(r, 30, 90, false); break;
+      case 1: s = gen_dense_gram(r, 40, 100); break;
+      case 2: s = gen_staged(r, 120, 220, true); break;
+      case 3: s = gen_overshoot(r, 30, 120); break;
+      case 4: s = gen_dense_gram(r, 100, 220); break;
+      case 5: s = gen_staged(r, 90, 160, false); break;
+      case 6: s = gen_staged(r, 120, 220, true); break;
+      default: s = gen_overshoot(r, 120, 220); break;
+    }
     emit(fc, fi, id++, s, kkt_tol, hang_s, stats);
   }
   std::ofstream fs(argv[5]);
